@@ -64,6 +64,7 @@ type Job struct {
 	Scenario *Scenario `json:"scenario"`
 	BudgetS  int       `json:"budget_s"`
 	Args     map[string]int `json:"args,omitempty"`
+	Prop     string         `json:"prop,omitempty"`
 }
 
 func verifDir() string { return "/verif" }
@@ -118,6 +119,26 @@ func main() {
 		os.Exit(checkMain(id, tier))
 	case "replay":
 		os.Exit(replayMain(os.Args[2]))
+	case "dbgfind":
+		// debugging aid: run job <idx> of check <id> and print the trace of every finding whose key contains <substr>
+		idx, _ := strconv.Atoi(os.Args[3])
+		j := checks[os.Args[2]].Jobs("quick")[idx]
+		j.Scenario.finish()
+		j.BudgetS = 60
+		r := runJob(j)
+		for i := range r.Found {
+			f := &r.Found[i]
+			if len(os.Args) > 4 && !strings.Contains(f.Key, os.Args[4]) {
+				continue
+			}
+			n, tr := confirm(f, 2)
+			fmt.Println("=====", f.Prop, f.Key, f.Msg, "confirmed", n)
+			for _, l := range tr {
+				if !strings.Contains(l, "Timer.") {
+					fmt.Println(l)
+				}
+			}
+		}
 	case "dumpjob":
 		// debugging aid: print job <idx> of check <id> as JSON
 		idx, _ := strconv.Atoi(os.Args[3])
@@ -162,6 +183,14 @@ func runJob(job *Job) *Result {
 		return fn(job, budget)
 	}
 	x := newExplorer(job.Scenario, budget)
+	x.prop = job.Prop
+	if o := job.Scenario.Oracle; o == "C08" || o == "C09" || o == "C16" {
+		x.onTerminal = func(w *World, path []Event) {
+			if !w.done() && w.steps < w.sc.MaxDepth {
+				w.violate(o, o+"/stuck", nil, fmt.Sprintf("no event enabled (horizon of %d timer expiries reached or deadlock) and not every live node reached the target height; heights: %v", w.sc.HorizonExpiries, w.heights()))
+			}
+		}
+	}
 	return x.run()
 }
 
@@ -317,6 +346,9 @@ func checkMain(id, tier string) int {
 	}
 	start := time.Now()
 	jobs := spec.Jobs(tier)
+	for _, j := range jobs {
+		j.Prop = id
+	}
 	// VERIF_SEED only permutes scheduling order of the scenario families
 	if s := seedEnv(); s != 0 && len(jobs) > 1 {
 		r := s % len(jobs)
